@@ -10,6 +10,7 @@ import (
 	"net"
 	"os"
 	"runtime"
+	"strings"
 	"sync"
 	"sync/atomic"
 	"testing"
@@ -122,6 +123,11 @@ func (e *eventer) OnJoinEvent(msg *service.Message, key string, err error) {
 		return
 	}
 	ev := snapMsg("cb_join", e.conn, msg)
+	if msg != nil && msg.JTMessage != nil && msg.JTMessage.Header != nil {
+		e.r.mu.Lock()
+		e.r.kept = append(e.r.kept, keptMsg{msg: msg, snap: ev})
+		e.r.mu.Unlock()
+	}
 	ev.Key = key
 	if err != nil {
 		ev.Err = err.Error()
@@ -141,7 +147,12 @@ func (e *eventer) OnNotSupportedEvent(msg *service.Message) {
 	if e.sc.Silent {
 		return
 	}
-	e.r.add(snapMsg("cb_unsupported", e.conn, msg))
+	ev := snapMsg("cb_unsupported", e.conn, msg)
+	e.r.add(ev)
+	// a message handed to this callback is a delivered message like any other: what the callback keeps must stay as it is
+	e.r.mu.Lock()
+	e.r.kept = append(e.r.kept, keptMsg{msg: msg, snap: ev})
+	e.r.mu.Unlock()
 }
 func (e *eventer) OnReadExecutionEvent(msg *service.Message) {
 	if e.sc.ReadHoldUs > 0 {
@@ -613,7 +624,20 @@ func childMain() {
 	if sc.NoFilter {
 		opts = append(opts, service.WithHasSubcontract(false))
 	}
-	if sc.KeyPrefix != "" {
+	switch sc.KeyMode {
+	case "auth_only":
+		prefix := sc.KeyPrefix
+		opts = append(opts, service.WithKeyFunc(func(m *service.Message) (string, bool) {
+			id := uint16(m.JTMessage.Header.ID)
+			return prefix + m.JTMessage.Header.TerminalPhoneNo, id == 0x0100 || id == 0x0102
+		}))
+	case "strip":
+		prefix := sc.KeyPrefix
+		opts = append(opts, service.WithKeyFunc(func(m *service.Message) (string, bool) {
+			return strings.TrimPrefix(m.JTMessage.Header.TerminalPhoneNo, prefix), true
+		}))
+	}
+	if sc.KeyPrefix != "" && sc.KeyMode == "" {
 		prefix := sc.KeyPrefix
 		opts = append(opts, service.WithKeyFunc(func(m *service.Message) (string, bool) { return prefix + m.JTMessage.Header.TerminalPhoneNo, true }))
 	}
